@@ -417,6 +417,26 @@ def annotate_loops(body, loops, unit):
                 body = (body[:st] + head + (l.get('inv') or '') + '\n{ let __e = &%s[%s]; %s = %s + 1; let %s = %s;' % (h, iv, iv, iv, pat, l['rebind'])
                         + l.get('body_proof', '') + body[br + 1:])
                 continue
+            if 'rebind' in l and re.search(r'\bcontinue\b', body[br + 1:match_close(body, br)]) and not re.search(r'\b(for|while|loop)\b', body[br + 1:match_close(body, br)]):
+                # R27b (automatic): a helper-fed `for` (R20) whose body uses `continue` and contains no inner loop - Verus for-loops do not support `continue` - becomes the
+                # index `while` of R27 over the hoisted vector; the sidecar invariant written for the for-loop is reused (`it.index@` -> index, index - 1 in the body)
+                h = '__h%d' % k
+                iv = '__i%d' % k
+                itn = l['it'] + '.index@'
+                inv = (l.get('inv') or '').replace(itn, iv)
+                extra = '%s <= %s.len(),' % (iv, h)
+                inv = re.sub(r'\binvariant\b', 'invariant ' + extra, inv, count=1) if re.search(r'\binvariant\b', inv) else 'invariant ' + extra + inv
+                if 'decreases' not in inv:
+                    inv = inv.rstrip().rstrip(',') + ',\n decreases %s.len() - %s,' % (h, iv)
+                cur = '(%s - 1)' % iv
+                close = match_close(body, br)
+                inner = body[br + 1:close]
+                head = ('let %s = %s;\n let mut %s: usize = 0;\n while %s < %s.len()\n' % (h, expr, iv, iv, h))
+                body = (body[:st] + head + inv + '\n{ let __e = &%s[%s]; %s = %s + 1; let %s = %s;' % (h, iv, iv, iv, pat, l['rebind'])
+                        + l.get('body_proof', '').replace(itn, cur) + inner.replace(itn, cur) + body[close:])
+                AUTO_RULES.append('R27b:%s:loop%d' % (unit, k))
+                R27A_LATE.setdefault(unit, []).append((itn, cur))
+                continue
             if 'rebind' in l:
                 # R20: for PAT in EXPR {..}  ->  let __hK = EXPR; for __e in it: &__hK inv { let PAT = <rebind>; ..}
                 h = '__h%d' % k
